@@ -367,14 +367,14 @@ def run(ctx):
             else:
                 log("replay file has neither a history nor sequential cases (kind=%s): nothing to re-run" % rp.get("kind"))
     elif quick:
-        plan = [("q1", ctx.seed, "inproc", "mem", 8, 6, 30, "-lossdur 1500ms -stalebarrier 600ms"),
+        plan = [("q1", ctx.seed, "inproc", "mem", 8, 6, 30, "-lossdur 1500ms -stalebarrier 600ms -newleader -abortbatch"),
                 ("q2", ctx.seed + 7000, "procs", "pebble", 10, 6, 10),
                 # checkpoints taken while writes are applied (SnapCount 20) + followers restarted under load
                 ("q3", ctx.seed + 9000, "inproc", "mem", 9, 10, 2,
                  "-snapcount 20 -nemkind restarts -mix nonidem -pace 1ms -racedur 0s -pairdur 0s")]
     else:
         s = ctx.seed * 1000
-        plan = [("t1", s + 1, "inproc", "mem", 60, 8, 80, "-lossdur 1500ms -stalebarrier 5s"),
+        plan = [("t1", s + 1, "inproc", "mem", 60, 8, 80, "-lossdur 1500ms -stalebarrier 5s -newleader -abortbatch"),
                 ("t0", s + 8, "inproc", "mem", 30, 10, 2, "-snapcount 20 -nemkind restarts -mix nonidem -pace 1ms -racedur 0s -pairdur 0s"),
                 ("t8", s + 9, "procs", "pebble", 45, 6, 2, "-snapcount 50 -racedur 0s -pairdur 0s"),
                 ("t2", s + 2, "procs", "pebble", 100, 6, 40),
@@ -468,7 +468,10 @@ def run(ctx):
              "DEL / SET..XX on the same fresh key at the same moment, each through its own replica, so that the entries share an "
              "apply batch) and PAIRS (write through the leader, wait for the reply, then immediately the command whose local no-op "
              "shortcut matches the state BEFORE that write through a follower: LPUSH->LPOP, DEL->SETNX, SREM->SADD, SADD->SREM). "
-             "Directed fault schedules: STALE-BARRIER (leader->F appends and read-index answers held, heartbeats pass; a shortcut write "
+             "Directed fault schedules: NEWLEADER-BARRIER (DEL k acknowledged by the old leader; T has the entry but messages with a newer "
+             "commit index are dropped at T; leadership transferred to T with its append acknowledgements held: SETNX k through T must not be "
+             "answered from T's store), ABORT-BATCH (a follower is stopped; one client writes groups SET a, SET b, SETEX c 0 v (refused) "
+             "through the leader; the follower restarts and applies the backlog in big batches: it must keep every acknowledged SET), STALE-BARRIER (leader->F appends and read-index answers held, heartbeats pass; a shortcut write "
              "to F starts read-index round 1; DEL k through the leader acknowledged; after round 1 timed out SETNX k through F starts round 2 "
              "and the OLD answer is delivered first: SETNX must not be answered from F's stale store; quick shortens the node's 5s round "
              "timeout through a verif-only knob, thorough uses the real one), FORGET-ACKED (leader->F2 cut, writes through the leader, leader->F1 cut, F1 restarted, "
